@@ -16,9 +16,10 @@ RULE_TEXT = {
     'LOCK-5': 'obsolete-before-retire: every node handed to reclamation by an OLC operation was unlocked-and-obsoleted by it first',
     'LOCK-7': 'no check / try_read_unlock on a read section that is certainly ended, empty or moved-from',
     'LOCK-8': 'stack entries carry the version of the node they describe',
+    'LOCK-9': 'lock coupling: the read section on a child is opened while the section it was reached under is still open (hand over hand); the parent is validated / released only afterwards',
     'ROLE': 'helper call sites pass, for every section parameter, the section opened on the node passed for the matching node parameter',
 }
-SUB2RULE = {'LOCK-1a': 'LOCK-1', 'LOCK-1b': 'LOCK-1', 'LOCK-1c': 'LOCK-1', 'LOCK-2': 'LOCK-2', 'LOCK-3a': 'LOCK-3', 'LOCK-3b': 'LOCK-3', 'LOCK-4b': 'LOCK-4', 'LOCK-5a': 'LOCK-5', 'LOCK-7b': 'LOCK-7', 'LOCK-8': 'LOCK-8', 'ROLE': 'ROLE'}
+SUB2RULE = {'LOCK-1a': 'LOCK-1', 'LOCK-1b': 'LOCK-1', 'LOCK-1c': 'LOCK-1', 'LOCK-2': 'LOCK-2', 'LOCK-3a': 'LOCK-3', 'LOCK-3b': 'LOCK-3', 'LOCK-4b': 'LOCK-4', 'LOCK-5a': 'LOCK-5', 'LOCK-7b': 'LOCK-7', 'LOCK-8': 'LOCK-8', 'LOCK-9': 'LOCK-9', 'ROLE': 'ROLE'}
 
 
 class Analysis:
@@ -270,6 +271,17 @@ def lock6(cfg):
             if e.get('k') != 'call' or forwarders.is_assert_elem(e):
                 continue
             nm = e.get('name')
+            if e.get('ck') == 'ctor' and (e.get('cls') or '').startswith('std::unique_ptr<unodb::detail::') and re.search(r'basic_db_(leaf|inode)_deleter<', e.get('cls') or '') and e.get('args') and not (e.get('copy') or e.get('move')):
+                # an owner with the immediate deleter built directly around a raw node pointer
+                a0 = f.strip_casts(e['args'][0])
+                fresh = isinstance(a0, dict) and (a0.get('k') in ('new', 'nullptr') or (a0.get('k') == 'call' and a0.get('name') in ('release',)))
+                if not fresh and f.short not in ('make_db_leaf_ptr', 'make_db_inode_unique_ptr'):
+                    n += 1
+                    single = any(s_ in f.name for s_ in SINGLE)
+                    res.ob(single, {'rule': 'LOCK-6', 'function': sh(f.name)[:110], 'site': fileline(e.get('loc')), 'callee': 'unique_ptr<..., immediate deleter>(raw pointer)', 'verdict': 'single-threaded teardown' if single else 'VIOLATION'})
+                    if not single:
+                        res.find(f, e.get('loc'), 'an existing OLC node is wrapped in a unique_ptr with the IMMEDIATE deleter: it is freed at scope exit although readers that have not passed a quiescent state may still hold pointers to it (the value view returned by get() must stay valid until the caller\'s next quiescent state); removed nodes must go through the QSBR-deferring reclaimable pointer', key='LOCK-6:immediate-owner-ctor:%s' % f.short, config=cfg.name)
+                continue
             if nm not in ('make_db_inode_unique_ptr', 'make_db_leaf_ptr', 'free_aligned'):
                 continue
             tg = f.callee(e)
